@@ -186,7 +186,7 @@ Definition ev_plan (cfg : rcfg) (e : event) : option plan :=
   | EBigDecimal (Some _) => nonkey DT_Float e
   | ENan _ => nonkey DT_Nan e
   | EUid b => keyable_ DT_UID (RkBytes b)
-  | ETime s => keyable_ DT_Time (RkTime s)
+  | ETime s => if negb (time_token_valid s) then None else keyable_ DT_Time (RkTime s)
   | EArray t count data => if array_api_ok t then mkplan (Some true) MArray (array_args t count data) e else None
   | EStringArray t data => if array_api_ok t then mkplan (Some true) MStringlikeArray (array_args t 0 data) e else None
   | EMedia mt data => if negb (utf8_valid mt && media_type_valid mt) then None else mkplan (Some true) MArray (array_args AT_Media (blen data) data) e
